@@ -236,7 +236,8 @@ def run (ctx):
       ctx.ob('R-ORDER', sel, "that emptiness test looks at the raw select result (the wake-up pipe counts as activity)", not tainted,
              "no removal from the result lists precedes the timeout dispatch" if not tainted else
              "`%s` edits the select result before the 'nothing happened' test: a wake-up ping alone (no I/O, no deadline reached) resumes the nearest-deadline task early" % tainted[0].text(40), (mod, n.ast), 'D4')
-  inc = g2.nodes_with_call(lambda c: call_name(c) == 'get' and '_incoming' in norm(c.func.value))
+  # (the hand-over buffer is a Queue drained with get() or a deque drained with popleft(); its emptiness test is .empty() or its truth value)
+  inc = g2.nodes_with_call(lambda c: call_name(c) in ('get', 'get_nowait', 'popleft', 'pop') and isinstance(c.func, ast.Attribute) and '_incoming' in norm(c.func.value))
   for n in inc:
     fs = q.fact_strs(g2, n)
     ctx.ob('R-DOM', sel, "new registrations are picked up in the pinger branch", any('self._pinger in' in f for f in fs), "under pinger in ro", (mod, n.ast), 'D4')
@@ -249,9 +250,13 @@ def run (ctx):
   iv = q.cfg_of(hr).interval(_sched_weight(hub))
   ctx.ob('R-EFFECT', hr, "the hub resumes a task by scheduling it exactly once with its result", iv == (1, 1) and any(norm(t) == hr.params[1] + '.rv' for t, v, st, k in q.stores_in(hr.node)), "effects %s" % (iv,), hr, 'D4')
   rsel = q.find_method(repo, hub, 'registerSelect', 'C06'); ctx.analysed(rsel)
-  put = [c for c in calls_in(rsel.node) if call_name(c) == 'put']
+  put = [c for c in calls_in(rsel.node) if call_name(c) in ('put', 'put_nowait', 'append') and isinstance(c.func, ast.Attribute) and '_incoming' in norm(c.func.value)]
   cyc_ = [c for c in calls_in(rsel.node) if call_name(c) == '_cycle']
   ctx.ob('R-ORDER', rsel, "a registration is published, then the hub is woken", bool(put) and bool(cyc_) and put[0].lineno < cyc_[0].lineno, "put then _cycle", rsel, 'D4')
+  if put:
+    # what is published is what the select loop unpacks: the task first (it is the key of the hub's table)
+    a0_ = put[0].args[0] if put[0].args else None
+    ctx.ob('R-AGREE', rsel, "the published registration names the task first", isinstance(a0_, ast.Tuple) and bool(a0_.elts) and norm(a0_.elts[0]) == rsel.params[1], norm(a0_) if a0_ is not None else "?", (mod, put[0]), 'D4')
   rel = [st for t, v, st, k in q.stores_in(rsel.node) if isinstance(t, ast.Name) and t.id == 'timeout' and k == 'augassign']
   if rel:
     gg = q.cfg_of(rsel); n = q.enclosing_stmt_node(gg, rel[0]); fs = q.fact_strs(gg, n)
@@ -432,12 +437,13 @@ def run (ctx):
   ctx.include('C07', ['ScheduleTask.run', 'Scheduler.schedule', 'Scheduler.fast_schedule'], "waking a task from another thread goes through the scheduler's ready queue")
 
 def hub_pong_order (ctx, repo, sel, g2, mod, clause):
-  inc = g2.nodes_with_call(lambda c: call_name(c) == 'get' and '_incoming' in norm(c.func.value))
+  inc = g2.nodes_with_call(lambda c: call_name(c) in ('get', 'get_nowait', 'popleft', 'pop') and isinstance(c.func, ast.Attribute) and '_incoming' in norm(c.func.value))
   pong = g2.nodes_with_call(lambda c: call_name(c) in ('pongAll', 'pong_all', 'pong') and isinstance(c.func, ast.Attribute))
   ctx.floor('select hub: wake-up clear and registration pick-up sites', len(inc) + len(pong), 2)
   if not inc or not pong: return
   before = all(any(g2.dominates(p, d, exc=False) for p in pong) for d in inc)
   empt = g2.nodes_with_call(lambda c: call_name(c) in ('empty', 'qsize') and '_incoming' in norm(c.func.value))
+  empt += [n_ for n_ in g2.nodes if n_.kind == 'cond' and n_.ast is not None and norm(n_.ast) in ('self._incoming', 'not self._incoming', 'len(self._incoming)', 'len(self._incoming) > 0') and n_ not in empt]
   after = [p for p in pong if any(p in g2.reachable(d, avoid=[g2.exit], exc=False) and not g2.dominates(p, d, exc=False) for d in inc + empt)]
   good = before and not after
   ctx.ob('R-ORDER', sel, "the wake-up pipe is cleared before new registrations are picked up, never after", good,
